@@ -7,6 +7,7 @@ CONSTANTS
   SegLens = {0, 1, 3, 4, 5}
   MaxTotal = 9
   NoCtx = NoCtx
+  SbThreshold = 1
   TrackStream = FALSE
 CONSTRAINT Bounded
 INVARIANTS InOrder CompleteIsWhole PartialLenOk
